@@ -14,22 +14,18 @@ import (
 // ---- family "timer" (C19): utils.Timer driven along TLC behaviours of Timer.tla
 // and along seeded random scripts; gates at the two verif yield points.
 
-const (
-	gTicked  = "timer.interval.ticked"
-	gStopped = "timer.stop.stopped"
-)
+const gFired = "timer.fired"
 
-// timerGoroutines counts the goroutines utils.SetTimeout / SetInterval started
-// (their closures are utils.SetTimeout.func1 / utils.SetInterval.func1) that are
-// still alive in this bubble, including one parked at the tick gate.
+// timerGoroutines counts the goroutines that exist on behalf of a timer in this bubble: the goroutine a fired runtime timer
+// started (utils.(*Timer).fire) unless it is already running the application's callback.
 func timerGoroutines() int {
 	n := 0
 	for _, g := range GoroutinesInBubble() {
-		if !strings.Contains(g, "/utils.SetTimeout.func") && !strings.Contains(g, "/utils.SetInterval.func") {
+		if !strings.Contains(g, "/utils.(*Timer).fire") && !strings.Contains(g, "/utils.SetTimeout.func") && !strings.Contains(g, "/utils.SetInterval.func") {
 			continue
 		}
-		if strings.Contains(g, "timerSlowCb") {
-			continue // a goroutine that is still running the application's callback is not a leftover of the timer
+		if strings.Contains(g, "timerSlowCb") || strings.Contains(g, "timerWorld).create.func") {
+			continue // a goroutine that is running the application's callback is not a leftover of the timer
 		}
 		n++
 	}
@@ -37,33 +33,23 @@ func timerGoroutines() int {
 }
 
 type timerWorld struct {
-	rec      *Rec
-	g        *Gates
-	tm       *utils.Timer
-	base     int
-	pending  map[string]bool // caller -> Stop in progress
-	unit     time.Duration
-	kind     string
-	period   time.Duration
-	parkedBy []string // callers parked at gStopped, in park order
+	rec    *Rec
+	g      *Gates
+	tm     *utils.Timer
+	unit   time.Duration
+	kind   string
+	period time.Duration
 }
 
 func (w *timerWorld) census() {
 	synctest.Wait()
-	n := 0
-	for _, v := range w.pending {
-		if v {
-			n++
-		}
-	}
-	w.rec.Log("census", "g", timerGoroutines(), "calls", n)
+	w.rec.Log("census", "g", timerGoroutines(), "calls", 0, "fired", w.g.Parked(gFired))
 }
 
 func (w *timerWorld) create(kind string, periodTicks int) {
 	w.kind = kind
 	w.period = time.Duration(periodTicks) * w.unit
-	w.g.Park(gTicked, true)
-	w.g.Park(gStopped, true)
+	w.g.Park(gFired, true)
 	synctest.Wait()
 	w.rec.Log("create", "kind", kind, "p", int64(w.period/time.Microsecond))
 	fn := func() { w.rec.Log("run") }
@@ -75,42 +61,20 @@ func (w *timerWorld) create(kind string, periodTicks int) {
 	w.census()
 }
 
-func (w *timerWorld) stopA(c string, api int) {
-	if w.tm == nil || w.pending[c] {
+func (w *timerWorld) stop(c string, api int) {
+	if w.tm == nil {
 		return
 	}
-	w.pending[c] = true
-	before := w.g.Parked(gStopped)
-	go func() {
-		w.rec.Log("stop.call", "c", c)
-		switch api {
-		case 1:
-			utils.ClearTimeout(w.tm)
-		case 2:
-			utils.ClearInterval(w.tm)
-		default:
-			w.tm.Stop()
-		}
-		w.rec.mu.Lock()
-		w.pending[c] = false
-		w.rec.mu.Unlock()
-		w.rec.Log("stop.ret", "c", c)
-	}()
-	synctest.Wait()
-	if w.g.Parked(gStopped) > before {
-		w.parkedBy = append(w.parkedBy, c)
+	w.rec.Log("stop.call", "c", c)
+	switch api {
+	case 1:
+		utils.ClearTimeout(w.tm)
+	case 2:
+		utils.ClearInterval(w.tm)
+	default:
+		w.tm.Stop()
 	}
-	w.census()
-}
-
-func (w *timerWorld) stopB(c string) {
-	for i, pc := range w.parkedBy {
-		if pc == c {
-			w.parkedBy = append(w.parkedBy[:i], w.parkedBy[i+1:]...)
-			w.g.ReleaseNth(gStopped, i)
-			break
-		}
-	}
+	w.rec.Log("stop.ret", "c", c)
 	w.census()
 }
 
@@ -118,40 +82,32 @@ func (w *timerWorld) refresh(c string) {
 	if w.tm == nil {
 		return
 	}
-	for _, v := range w.pending {
-		if v {
-			return // Refresh concurrent with a Stop in progress: not explored
-		}
-	}
 	w.rec.Log("refresh.call", "c", c)
 	w.tm.Refresh()
 	w.rec.Log("refresh.ret", "c", c)
 	w.census()
 }
 
+// tick: one unit of virtual time. The window between a runtime timer firing and its goroutine reaching the timer's mutex is
+// instantaneous: whoever is parked in it is let go first; a timer that expires during the unit parks its goroutine again.
 func (w *timerWorld) tick() {
-	// the tick window is instantaneous: never let virtual time pass with a loop parked in it
-	for w.g.Release(gTicked) {
+	for w.g.Release(gFired) {
 		synctest.Wait()
 	}
-	time.Sleep(w.unit)
+	w.g.SleepArmed(w.unit)
 	w.census()
 }
 
-func (w *timerWorld) rearm() {
-	w.g.Release(gTicked)
-	w.census()
-}
-
-// burst: several API calls back to back from one goroutine, with no quiescence in
-// between (the timer goroutine gets no chance to run), stop gate open.
-func (w *timerWorld) burst(r *rand.Rand) {
-	for _, v := range w.pending {
-		if v {
-			return
-		}
+// process: the i-th fired goroutine (1-based, park order) goes on to the mutex.
+func (w *timerWorld) process(i int) {
+	if !w.g.ReleaseNth(gFired, i-1) {
+		w.g.Release(gFired)
 	}
-	w.g.Park(gStopped, false)
+	w.census()
+}
+
+// burst: several API calls back to back from one goroutine, with no quiescence in between.
+func (w *timerWorld) burst(r *rand.Rand) {
 	n := 2 + r.Intn(3)
 	for i := 0; i < n; i++ {
 		c := fmt.Sprintf("b%d", i)
@@ -165,47 +121,52 @@ func (w *timerWorld) burst(r *rand.Rand) {
 			w.rec.Log("refresh.ret", "c", c)
 		}
 	}
-	w.g.Park(gStopped, true)
 	w.census()
 }
 
-// finish: open all gates, watch three more periods for late callbacks, then cancel for cleanup.
+// finish: open all gates, watch three more periods for late callbacks, cancel for cleanup, then watch for a runtime timer
+// that is still armed (its goroutine would show up at the yield point).
 func (w *timerWorld) finish() {
 	if w.tm == nil {
 		return
 	}
 	w.g.StopParking()
 	w.g.ReleaseAll()
-	w.parkedBy = nil
 	w.census()
 	for i := 0; i < 3; i++ {
 		time.Sleep(w.period)
 		w.census()
 	}
 	w.rec.Log("cleanup")
-	w.g.Park(gTicked, false)
 	w.tm.Stop()
 	synctest.Wait()
-	w.rec.Log("cleanup.done", "g", timerGoroutines())
+	before := w.g.Hits(gFired)
+	time.Sleep(3 * w.period)
+	synctest.Wait()
+	w.rec.Log("cleanup.done", "g", timerGoroutines(), "firedAfter", w.g.Hits(gFired)-before)
 }
 
 func timerReplay(beh []map[string]any, unit time.Duration) func(t *testing.T, rec *Rec, g *Gates) {
 	return func(t *testing.T, rec *Rec, g *Gates) {
-		w := &timerWorld{rec: rec, g: g, pending: map[string]bool{}, unit: unit}
+		w := &timerWorld{rec: rec, g: g, unit: unit}
 		for _, a := range beh {
 			switch a["a"] {
 			case "create":
 				w.create(a["kind"].(string), int(a["p"].(float64)))
 			case "tick":
 				w.tick()
-			case "stopA":
-				w.stopA(a["c"].(string), 0)
-			case "stopB":
-				w.stopB(a["c"].(string))
+			case "fire":
+				w.census() // the runtime timer expired during the last unit: its goroutine is at the yield point
+			case "process":
+				i := 1
+				if f, ok := a["i"].(float64); ok {
+					i = int(f)
+				}
+				w.process(i)
+			case "stop":
+				w.stop(a["c"].(string), 0)
 			case "refresh":
 				w.refresh(a["c"].(string))
-			case "rearm":
-				w.rearm()
 			}
 		}
 		w.finish()
@@ -216,7 +177,7 @@ func timerRandom(seed int64, steps int) func(t *testing.T, rec *Rec, g *Gates) {
 	return func(t *testing.T, rec *Rec, g *Gates) {
 		r := rand.New(rand.NewSource(seed))
 		unit := []time.Duration{time.Millisecond, 7 * time.Millisecond, time.Second}[r.Intn(3)]
-		w := &timerWorld{rec: rec, g: g, pending: map[string]bool{}, unit: unit}
+		w := &timerWorld{rec: rec, g: g, unit: unit}
 		kind := "timeout"
 		if r.Intn(2) == 0 {
 			kind = "interval"
@@ -229,22 +190,20 @@ func timerRandom(seed int64, steps int) func(t *testing.T, rec *Rec, g *Gates) {
 			case k < 4:
 				w.tick()
 			case k < 6:
-				w.stopA(c, r.Intn(3))
-			case k < 7:
-				if len(w.parkedBy) > 0 {
-					w.stopB(w.parkedBy[r.Intn(len(w.parkedBy))])
-				}
-			case k < 9:
+				w.stop(c, r.Intn(3))
+			case k < 8:
 				w.refresh(c)
 			default:
-				w.rearm()
+				if n := w.g.Parked(gFired); n > 0 {
+					w.process(1 + r.Intn(n))
+				}
 			}
 			if r.Intn(8) == 0 {
 				w.burst(r)
 			}
-			// keep the tick window instantaneous unless the script just acted in it
-			if w.g.Parked(gTicked) > 0 && r.Intn(3) > 0 {
-				w.rearm()
+			// a fired goroutine is mostly let go at once; sometimes a Stop/Refresh gets in between
+			if w.g.Parked(gFired) > 0 && r.Intn(3) > 0 {
+				w.process(1)
 			}
 		}
 		w.finish()
@@ -255,10 +214,9 @@ func timerRandom(seed int64, steps int) func(t *testing.T, rec *Rec, g *Gates) {
 // goroutine (no quiescence in between), from each pre-state of the timer.
 func timerBurst(kind string, pre int, seq []bool) func(t *testing.T, rec *Rec, g *Gates) {
 	return func(t *testing.T, rec *Rec, g *Gates) {
-		w := &timerWorld{rec: rec, g: g, pending: map[string]bool{}, unit: 5 * time.Millisecond}
+		w := &timerWorld{rec: rec, g: g, unit: 5 * time.Millisecond}
 		w.create(kind, 2)
-		w.g.Park(gStopped, false)
-		w.g.Park(gTicked, false)
+		w.g.Park(gFired, pre == 3)
 		switch pre {
 		case 1: // fired at least once
 			w.tick()
@@ -269,6 +227,9 @@ func timerBurst(kind string, pre int, seq []bool) func(t *testing.T, rec *Rec, g
 			w.rec.Log("stop.call", "c", "p")
 			w.tm.Stop()
 			w.rec.Log("stop.ret", "c", "p")
+			w.census()
+		case 3: // the runtime timer has fired, its goroutine has not reached the mutex yet
+			w.g.SleepArmed(2 * w.unit)
 			w.census()
 		}
 		for i, isStop := range seq {
@@ -292,7 +253,7 @@ func timerBurst(kind string, pre int, seq []bool) func(t *testing.T, rec *Rec, g
 // same, a cancellation issued meanwhile returns promptly, a callback may cancel or refresh its own timer.
 func timerSlowCb(kind string, variant int) func(t *testing.T, rec *Rec, g *Gates) {
 	return func(t *testing.T, rec *Rec, g *Gates) {
-		w := &timerWorld{rec: rec, g: g, pending: map[string]bool{}, unit: 5 * time.Millisecond}
+		w := &timerWorld{rec: rec, g: g, unit: 5 * time.Millisecond}
 		w.kind = kind
 		w.period = 2 * w.unit
 		synctest.Wait()
@@ -324,7 +285,7 @@ func timerSlowCb(kind string, variant int) func(t *testing.T, rec *Rec, g *Gates
 			w.census()
 		}
 		if variant == 1 {
-			w.stopA("c1", 0) // cancelled while a callback is still running: must return at once
+			w.stop("c1", 0) // cancelled while a callback is still running: must return at once
 		}
 		for i := 0; i < 2; i++ {
 			time.Sleep(w.unit)
@@ -347,7 +308,7 @@ func timerScenarios(behs [][]map[string]any, seed int64, nRandom int) []Scenario
 		out = append(out, Scenario{Name: fmt.Sprintf("beh%d", i), Run: timerReplay(b, 10*time.Millisecond)})
 	}
 	for _, kind := range []string{"timeout", "interval"} {
-		for pre := 0; pre < 3; pre++ {
+		for pre := 0; pre < 4; pre++ {
 			for n := 2; n <= 4; n++ {
 				for m := 0; m < 1<<n; m++ {
 					seq := make([]bool, n)
